@@ -122,7 +122,7 @@ CNS = Fn(A, "create_next_state", home="C02", implicit_props=("C09", "C02", "C05"
 UNIT = Unit(
     name="apply", uses="group_core_axioms, axiom_marker_not_output, axiom_marker_inj",
     prelude=["core.rs", "raw.rs", "iter.rs", "crypto.rs", "state_abs.rs"],
-    lemmas=["sums.rs", "coinsview.rs", "tips.rs", "apply.rs"],
+    lemmas=["sums.rs", "iterlem.rs", "coinsview.rs", "tips.rs", "apply.rs"],
     items=[
         TypeItem(S, "struct", "UnsealedState"),
         TypeItem(S, "enum", "StateError", derive="#[derive(Clone, Copy, PartialEq, Eq, Structural)]"),
